@@ -444,3 +444,104 @@ def counter_width(ck, F, rid, prefixes):
                 ck.bad(rid, key, where(t["sp"]), "the counter is an Atomic<%s>: it wraps to 0 after %s live entities, and the `no scope is live` / `last reference` "
                        "tests made on it then answer wrongly" % (ty, {"u8": "256", "u16": "65536", "u32": "2^32"}.get(ty, "few")), fn=b.path)
     return n
+
+
+AMBIENT = ("::panicking", "std::time::Instant::now", "std::time::SystemTime::now", "std::env::var", "std::env::var_os", "std::thread::current")
+
+
+def ambient_gate(ck):
+    """Run after a property's own rules, over every function they analysed that returns `()`: the function's effect (what
+    it calls on some returning path) must not be withheld on another returning path that was chosen by nothing but an
+    ambient predicate -- is the thread unwinding, what time is it, an environment variable -- i.e. by no input, no field
+    of self and no static of the crate. Such a gate makes a notification, a release or a write depend on circumstances
+    the property quantifies over ("crash points", "schedules") and is the shape every `if panicking() { return }`
+    shortcut has. Paths that diverge (panic) instead of returning are not judged (avoiding a double panic is fine)."""
+    from rulekit import Facts, where
+    from rulekit.sym import PathEval, show
+    rid = "%s.RA" % ck.prop
+    ck.rule(rid, "no analysed function withholds its effect for an ambient reason alone (unwinding, clock, environment)", floor=1)
+    facts = []
+    for cfg in ck.configs:
+        try:
+            facts.append(Facts(cfg))
+        except Exception:
+            pass
+
+    def cond_calls(p):
+        out = set()
+
+        def walk(t):
+            if isinstance(t, tuple):
+                if t and t[0] == "call" and isinstance(t[-1], int):
+                    out.add(t[-1])
+                for x in t:
+                    walk(x)
+        for c in p.conds:
+            walk(c[0])
+        return out
+
+    def ambient_term(t):
+        if isinstance(t, tuple):
+            if t and t[0] == "call" and isinstance(t[1], str) and any(t[1].endswith(a) or t[1] == a for a in AMBIENT):
+                return True
+            return any(ambient_term(x) for x in t)
+        return False
+    n = 0
+    for fn in sorted(ck.functions):
+        b = None
+        for F in facts:
+            b = F.body(fn)
+            if b is not None:
+                break
+        if b is None or not b.raw.get("locals") or str(b.raw["locals"][0]) != "()" or not str(b.raw["sp"].get("f", "")).startswith("tracing"):
+            continue
+        try:
+            paths = [p for p in PathEval(b).run() if p.end == "return"]
+        except Exception:
+            continue
+        n += 1
+        if len(paths) < 2:
+            ck.ok(rid, "%s does not skip its work for an ambient reason" % "::".join(fn.replace("<", "").split("::")[-2:])[:90], fn=fn, detail=len(paths))
+            continue
+        info = [(p, cond_calls(p)) for p in paths]
+        busy = [p for p, cc in info if any(c[0] not in cc for c in p.calls)]
+        bad = None
+        for p, cc in info:
+            if not busy or any(c[0] not in cc for c in p.calls):
+                continue
+            nonconst = [c for c in p.conds if c[0][0] != "const"]
+            if nonconst and all(ambient_term(c[0]) and "arg" not in show(c[0]) for c in nonconst):
+                bad = [show(c[0])[:60] for c in nonconst]
+                break
+        key = "%s does not skip its work for an ambient reason" % "::".join(fn.replace("<", "").split("::")[-2:])[:90]
+        if bad:
+            ck.bad(rid, key, where(b.raw["sp"]), "a returning path does nothing, selected only by %s, while other paths do the function's work" % bad, fn=fn)
+        else:
+            ck.ok(rid, key, fn=fn, detail=len(paths))
+    if not n:
+        ck.ok(rid, "no unit-returning function among those analysed", detail=0)
+
+
+def result_test(cond):
+    """For a path condition: if it tests a Result for Ok/Err return (base term, is_ok), else (None, None). Recognises
+    `r.is_ok()`, `r.is_err()`, and `match r { Ok(..) .. Err(..) }` / `if let` (the discriminant: Ok = 0, Err = 1)."""
+    term, val = cond[0], cond[1]
+    if term[0] == "call" and term[2]:
+        m = term[1].rsplit("::", 1)[-1]
+        if m == "is_ok":
+            return strip_views(term[2][0]), val != 0
+        if m == "is_err":
+            return strip_views(term[2][0]), val == 0
+    if term[0] == "discr":
+        base = strip_views(term[1])
+        if val == 0:
+            return base, True
+        if val == 1:
+            return base, False
+        arms = cond[2] if len(cond) > 2 else []
+        if arms == [1]:
+            return base, True
+        if arms == [0]:
+            return base, False
+        return base, None
+    return None, None
